@@ -93,6 +93,9 @@ pub trait Flavour: Sized + 'static {
     fn edge_eq(a: &ET<Self::Node>, b: &ET<Self::Node>) -> bool;
     /// reverse() of an edge, as keys and value
     fn edge_reverse(a: &ET<Self::Node>) -> (usize, usize, u64);
+    /// `cmp`, `partial_cmp`, `<`, `<=` of two edges, and the order `sort()` puts a list of edges in
+    fn edge_cmp(a: &ET<Self::Node>, b: &ET<Self::Node>) -> String;
+    fn edge_sort(v: &[ET<Self::Node>]) -> Vec<(usize, usize, u64)>;
 
     /// `iter_out()` (undirected: `iter()`); the loop body is `f`, `false` breaks
     fn for_out(u: &Self::Node, f: Step<Self::Node>);
@@ -221,6 +224,17 @@ macro_rules! common_node_items {
             let ea = gdsl::$m::Edge(a.0.clone(), a.1.clone(), a.2.clone());
             let eb = gdsl::$m::Edge(b.0.clone(), b.1.clone(), b.2.clone());
             ea == eb
+        }
+        fn edge_cmp(a: &ET<Self::Node>, b: &ET<Self::Node>) -> String {
+            let ea = gdsl::$m::Edge(a.0.clone(), a.1.clone(), a.2.clone());
+            let eb = gdsl::$m::Edge(b.0.clone(), b.1.clone(), b.2.clone());
+            format!("{:?} {:?} {} {} {}", ea.cmp(&eb), ea.partial_cmp(&eb), ea < eb, ea <= eb, ea.clone().max(eb.clone()).value().0)
+        }
+        fn edge_sort(v: &[ET<Self::Node>]) -> Vec<(usize, usize, u64)> {
+            let mut es: Vec<gdsl::$m::Edge<usize, NVal, EVal>> =
+                v.iter().map(|a| gdsl::$m::Edge(a.0.clone(), a.1.clone(), a.2.clone())).collect();
+            es.sort();
+            es.iter().map(|e| (*e.0.key(), *e.1.key(), (e.2).0)).collect()
         }
         fn edge_reverse(a: &ET<Self::Node>) -> (usize, usize, u64) {
             let e = gdsl::$m::Edge(a.0.clone(), a.1.clone(), a.2.clone());
@@ -479,14 +493,48 @@ macro_rules! directed_flavour {
                             }
                             let _ = it.size_hint();
                         } else {
-                            let _v: Vec<bool> = it
-                                .map(|gdsl::$m::Edge(a, b, e)| {
-                                    if !f(a, b, e) {
-                                        std::panic::resume_unwind(Box::new(crate::locks::SimAbort("cut".into())));
+                            // the body, as adaptor chains call it; `false` cuts the walk by unwinding
+                            let mut body = |gdsl::$m::Edge(a, b, e): gdsl::$m::Edge<usize, NVal, EVal>| {
+                                if !f(a, b, e) {
+                                    std::panic::resume_unwind(Box::new(crate::locks::SimAbort("cut".into())));
+                                }
+                                true
+                            };
+                            match style {
+                                2 => {
+                                    let _v: Vec<bool> = it.map(&mut body).collect();
+                                }
+                                3 => it.for_each(|e| {
+                                    body(e);
+                                }),
+                                4 => {
+                                    let _ = it.try_for_each(|e| if body(e) { Ok(()) } else { Err(()) });
+                                }
+                                5 => it.step_by(2).for_each(|e| {
+                                    body(e);
+                                }),
+                                6 => it.skip(1).for_each(|e| {
+                                    body(e);
+                                }),
+                                7 => {
+                                    // fold / count / last on what is left after the first element
+                                    if let Some(e) = it.next() {
+                                        body(e);
                                     }
-                                    true
-                                })
-                                .collect();
+                                    let _ = it.fold(0usize, |n, e| {
+                                        body(e);
+                                        n + 1
+                                    });
+                                }
+                                _ => {
+                                    if let Some(e) = it.nth(0) {
+                                        body(e);
+                                    }
+                                    if let Some(e) = it.last() {
+                                        body(e);
+                                    }
+                                }
+                            }
                         }
                     }};
                 }
@@ -688,14 +736,48 @@ macro_rules! undirected_flavour {
                             }
                             let _ = it.size_hint();
                         } else {
-                            let _v: Vec<bool> = it
-                                .map(|gdsl::$m::Edge(a, b, e)| {
-                                    if !f(a, b, e) {
-                                        std::panic::resume_unwind(Box::new(crate::locks::SimAbort("cut".into())));
+                            // the body, as adaptor chains call it; `false` cuts the walk by unwinding
+                            let mut body = |gdsl::$m::Edge(a, b, e): gdsl::$m::Edge<usize, NVal, EVal>| {
+                                if !f(a, b, e) {
+                                    std::panic::resume_unwind(Box::new(crate::locks::SimAbort("cut".into())));
+                                }
+                                true
+                            };
+                            match style {
+                                2 => {
+                                    let _v: Vec<bool> = it.map(&mut body).collect();
+                                }
+                                3 => it.for_each(|e| {
+                                    body(e);
+                                }),
+                                4 => {
+                                    let _ = it.try_for_each(|e| if body(e) { Ok(()) } else { Err(()) });
+                                }
+                                5 => it.step_by(2).for_each(|e| {
+                                    body(e);
+                                }),
+                                6 => it.skip(1).for_each(|e| {
+                                    body(e);
+                                }),
+                                7 => {
+                                    // fold / count / last on what is left after the first element
+                                    if let Some(e) = it.next() {
+                                        body(e);
                                     }
-                                    true
-                                })
-                                .collect();
+                                    let _ = it.fold(0usize, |n, e| {
+                                        body(e);
+                                        n + 1
+                                    });
+                                }
+                                _ => {
+                                    if let Some(e) = it.nth(0) {
+                                        body(e);
+                                    }
+                                    if let Some(e) = it.last() {
+                                        body(e);
+                                    }
+                                }
+                            }
                         }
                     }};
                 }
